@@ -218,7 +218,7 @@ package chain
 //@   ensures (result1 <==> id in hdr) && (result1 ==> result0 == hdr[id])
 //@ iface Store.Block
 //@   assigns nothing
-//@   ensures (result2 <==> id in body) && (result2 ==> result0 == body[id]) && ((result1 != nil) <==> (result2 && id in supp))
+//@   ensures (result2 <==> id in body) && (result2 ==> result0 == body[id] && result0.ID() == id) && ((result1 != nil) <==> (result2 && id in supp))
 //@ iface Store.AddState
 //@   assigns ghost:states
 //@   requires [no-overwrite] !(cs.Index.ID in applied)
@@ -249,7 +249,7 @@ package chain
 //
 // Coherence of the abstract store: the best chain is contiguous up to sheight, every best
 // block has a state carrying its own index, and pruned bodies form a prefix of the chain.
-//@ pred storeInv() = (forall h uint64 :: { h in best } (h in best) <==> h <= sheight)
+//@ pred storeInv() = !(types.BlockID{} in body) && (forall h uint64 :: { h in best } (h in best) <==> h <= sheight)
 //@   && (forall h uint64 :: { best[h] } h in best ==> (best[h] in states) && states[best[h]].Index.Height == h && states[best[h]].Index.ID == best[h])
 //@ pred prunedPrefix() = forall j uint64, k uint64 :: { best[j], best[k] } j < k && k <= sheight && !(best[k] in body) ==> !(best[j] in body)
 //@ pred managerInv(m *Manager) = m != nil && m.store != nil && storeInv() && m.tipState.Index.Height == sheight && best[sheight] == m.tipState.Index.ID
@@ -347,8 +347,35 @@ package chain
 // block's body has been pruned in the meantime.
 //@ func (*Manager).reorgTo
 //@   assigns *
-//@ func (*Manager).AddBlocks props C19
+//@ func (*Manager).AddBlocks props C19,C04
 //@   requires managerInv(m) && appliedInv() && recordInv()
+//@   ensures [no-notify-on-error] result != nil ==> !mayHaveCalled("funcvalue")
 //@   loop "range blocks"
 //@     invariant m == old(m) && m.store == old(m.store) && m.store != nil && appliedInv() && recordInv()
 //@     invariant applied == old(applied) && best == old(best) && sheight == old(sheight)
+//
+// ---------------------------------------------------------------------------
+// C04: the update stream
+//
+//@ func blockAndParent
+//@   inline
+//
+// UpdatesSince: at most max(maxBlocks,0) updates; nil slices on error; reverts walk back from
+// the subscriber's index until the best chain is reached and only then applies follow (once on
+// the best chain the cursor stays on it); each update ends at the cursor (contiguity of the
+// path); when the budget is not exhausted the last update ends at the tip.
+//@ func (*Manager).UpdatesSince props C04
+//@   nopanic
+//@   requires managerInv(m)
+//@   loop "for index != m.tipState.Index && len(rus)+len(aus) < maxBlocks"
+//@     invariant m == old(m) && err == nil
+//@     invariant [budget] len(rus) + len(aus) <= maxBlocks || (len(rus) == 0 && len(aus) == 0)
+//@     invariant [order] len(aus) > 0 ==> (index.Height in best) && best[index.Height] == index.ID
+//@     invariant [cursor-r] len(rus) > 0 && len(aus) == 0 ==> rus[len(rus)-1].State.Index == index
+//@     invariant [cursor-a] len(aus) > 0 ==> aus[len(aus)-1].State.Index.ID == index.ID && aus[len(aus)-1].Block.ID() == index.ID
+//@     invariant [start] len(rus) == 0 && len(aus) == 0 ==> index == old(index)
+//@   ensures [bounded] len(rus) + len(aus) <= maxBlocks || (len(rus) == 0 && len(aus) == 0)
+//@   ensures [nil-on-error] err != nil ==> rus == nil && aus == nil
+//@   ensures [reach-tip-a] err == nil && len(rus) + len(aus) < maxBlocks && len(aus) > 0 ==> aus[len(aus)-1].State.Index.ID == m.tipState.Index.ID
+//@   ensures [reach-tip-r] err == nil && len(rus) + len(aus) < maxBlocks && len(aus) == 0 && len(rus) > 0 ==> rus[len(rus)-1].State.Index == m.tipState.Index
+//@   ensures [reach-tip-0] err == nil && 0 < maxBlocks && len(aus) == 0 && len(rus) == 0 ==> index == m.tipState.Index
